@@ -2,8 +2,11 @@
 
 // Conformance harness for property C14 (auth.RequireBearerToken), public API only.
 // Reads the abstract cases enumerated by TLC (VERIF_IN), concretises each into a real
-// http request / verifier / options, runs the real middleware under a frozen clock
-// (testing/synctest) and records the outcome (VERIF_OUT) for the TLA+ monitor.
+// http request / verifier / options, runs the real middleware under the virtual clock of
+// testing/synctest and records the outcome (VERIF_OUT) for the TLA+ monitor.
+// The clock is frozen except while the scripted verifier is at work: a case of the duration slice has a verifier that
+// takes d > 0, so a presentation has two instants (arrival, decision); the harness records the instants at which every
+// request arrived and the handler was entered.
 //
 // The harness decides nothing: it draws a (seeded) representative of every value class of the case, checks with
 // exact integer arithmetic that the representative lies in the class (a mismatch is a harness failure, not a verdict),
@@ -45,7 +48,9 @@ type c14Case struct {
 	Allow   bool     `json:"allow"`
 	URL     string   `json:"url"`
 	Opts    string   `json:"opts"`
-	Late    bool     `json:"late"` // the class's "Expiration + skew before now": used only to validate the representative
+	Dur     string   `json:"dur"`   // duration of one verifier call: 0 | secs | Lm1 | L | Lp1 | long (relative to the token's remaining life)
+	Late    bool     `json:"late"`  // the class's "Expiration + skew before now": used only to validate the representative
+	LateK   []bool   `json:"lateK"` // the same at the instants 0, d, 2d, 3d
 }
 
 type c14Real struct {
@@ -57,6 +62,9 @@ type c14Real struct {
 	ChalScope string `json:"chalScope"` // none | match | other
 	VerCalled bool   `json:"verCalled"`
 	TokenOK   bool   `json:"tokenOk"`
+	// instants, in verifier calls (multiples of d) since the first arrival of the case; -1: not such a multiple
+	Arr int `json:"arr"` // the request arrived
+	Dec int `json:"dec"` // it was decided: the handler was entered or, if it did not run, ServeHTTP returned
 }
 
 type c14Line struct {
@@ -263,6 +271,55 @@ func c14Exp(r *rand.Rand, class string, now time.Time, skew time.Duration) time.
 	panic("exp " + class)
 }
 
+// c14Dur draws a representative of the class of the verifier's duration; life = Expiration + skew - now.
+func c14Dur(r *rand.Rand, class string, life *big.Int) time.Duration {
+	rel := func(delta time.Duration) time.Duration {
+		d := new(big.Int).Add(life, big.NewInt(int64(delta)))
+		if d.Sign() < 0 || !d.IsInt64() {
+			panic(fmt.Sprintf("representative outside its class: duration %s of a life of %s ns is %s ns", class, life, d))
+		}
+		return time.Duration(d.Int64())
+	}
+	switch class {
+	case "", "0":
+		return 0
+	case "secs":
+		return []time.Duration{5 * time.Second, c14RandDur(r, time.Second, 30*time.Second)}[r.IntN(2)]
+	case "Lm1":
+		return rel(-1)
+	case "L":
+		return rel(0)
+	case "Lp1":
+		return rel(1)
+	case "long":
+		return rel(c14RandDur(r, time.Second, 30*time.Second))
+	}
+	panic("dur " + class)
+}
+
+// c14Life returns Expiration + skew - now in nanoseconds, in the integers.
+func c14Life(now, exp time.Time, skew time.Duration) *big.Int {
+	off := new(big.Int).Sub(big.NewInt(exp.Unix()), big.NewInt(now.Unix()))
+	off.Mul(off, big.NewInt(1e9))
+	off.Add(off, big.NewInt(int64(exp.Nanosecond()-now.Nanosecond())))
+	return off.Add(off, big.NewInt(int64(skew)))
+}
+
+// c14CheckDur validates the representative of the duration against the class's verdicts at the instants 0, d, 2d, 3d.
+func c14CheckDur(c c14Case, now, exp time.Time, skew, d time.Duration) {
+	if c.Exp == "zero" || len(c.LateK) == 0 {
+		return
+	}
+	life := c14Life(now, exp, skew)
+	for k, want := range c.LateK {
+		left := new(big.Int).Sub(life, new(big.Int).Mul(big.NewInt(int64(k)), big.NewInt(int64(d))))
+		if late := left.Sign() < 0; late != want {
+			panic(fmt.Sprintf("representative outside its class: exp=%s skew=%s dur=%s: life=%s ns d=%d ns, class says late=%v at %d*d",
+				c.Exp, c.Skew, c.Dur, life, int64(d), want, k))
+		}
+	}
+}
+
 // c14CheckTime validates the representative against the class, in the integers.
 func c14CheckTime(c c14Case, now, exp time.Time, skew time.Duration) {
 	if c.Exp == "zero" {
@@ -399,6 +456,30 @@ func c14Run(r *rand.Rand, c c14Case) (outs [2]c14Real, desc string) {
 	skew := c14Skew(r, c.Skew)
 	exp := c14Exp(r, c.Exp, now, skew)
 	c14CheckTime(c, now, exp, skew)
+	// the duration of one verifier call, and how the verifier spends it
+	var d time.Duration
+	if c.Dur != "" && c.Dur != "0" {
+		var life *big.Int
+		if c.Exp != "zero" {
+			life = c14Life(now, exp, skew)
+		}
+		d = c14Dur(r, c.Dur, life)
+		c14CheckDur(c, now, exp, skew, d)
+	}
+	waitKind := r.IntN(3)
+	calls := 0 // verifier calls that have returned
+	// an instant of the run, in verifier calls since now: the clock says how many (when d is 0 it cannot tell: then the
+	// count of calls, provided the clock has not moved)
+	instant := func() int {
+		off := time.Since(now)
+		switch {
+		case d == 0 && off == 0:
+			return calls
+		case d > 0 && off >= 0 && off%d == 0:
+			return int(off / d)
+		}
+		return -1
+	}
 
 	pool := c14ScopePools[r.IntN(len(c14ScopePools))]
 	name := map[string]string{"a": pool[0], "b": pool[1]}
@@ -451,6 +532,24 @@ func c14Run(r *rand.Rand, c c14Case) (outs [2]c14Real, desc string) {
 	verifier := func(ctx context.Context, token string, req *http.Request) (*auth.TokenInfo, error) {
 		out.VerCalled = true
 		out.TokenOK = token == tok
+		defer func() { calls++ }()
+		if d > 0 {
+			// a verifier that asks somebody else: the virtual clock advances by d while it waits
+			switch waitKind {
+			case 0:
+				time.Sleep(d)
+			case 1:
+				select {
+				case <-time.After(d):
+				case <-ctx.Done():
+					return nil, ctx.Err()
+				}
+			default:
+				done := make(chan struct{})
+				go func() { time.Sleep(d); close(done) }()
+				<-done
+			}
+		}
 		switch c.Ver {
 		case "ok":
 			return info, nil
@@ -482,6 +581,7 @@ func c14Run(r *rand.Rand, c c14Case) (outs [2]c14Real, desc string) {
 	}
 	inner := http.HandlerFunc(func(w http.ResponseWriter, req *http.Request) {
 		out.Ran = true
+		out.Dec = instant()
 		out.SameInfo = unchanged(auth.TokenInfoFromContext(req.Context()))
 		w.WriteHeader(200)
 	})
@@ -495,7 +595,11 @@ func c14Run(r *rand.Rand, c c14Case) (outs [2]c14Real, desc string) {
 			req.Header.Add("Authorization", hv)
 		}
 		rec := httptest.NewRecorder()
+		out.Arr = instant()
 		h.ServeHTTP(rec, req)
+		if !out.Ran {
+			out.Dec = instant()
+		}
 		out.Status = rec.Code
 		out.ChalURL, out.ChalScope = "none", "none"
 		seen := map[string]bool{}
@@ -532,6 +636,9 @@ func c14Run(r *rand.Rand, c c14Case) (outs [2]c14Real, desc string) {
 	}
 	desc = fmt.Sprintf("authorization=%q token=%q exp=unix:%d.%09d(zero=%v) skew=%dns granted=%q required=%q url=%q",
 		hvs, tok, exp.Unix(), exp.Nanosecond(), exp.IsZero(), int64(skew), snapScopes, required, metaURL)
+	if d > 0 {
+		desc += fmt.Sprintf(" first-arrival=unix:%d.%09d verifier-takes=%dns", now.Unix(), now.Nanosecond(), int64(d))
+	}
 	return outs, desc
 }
 
@@ -574,17 +681,39 @@ func TestVerif_C14(t *testing.T) {
 		}
 		cases = append(cases, c)
 	}
+	nOf := func(c c14Case) int {
+		if c.Part != "core" {
+			return repsSlice
+		}
+		return reps
+	}
+	timed := func(c c14Case) bool { return c.Dur != "" && c.Dur != "0" }
 	// frozen clock: time.Now() does not advance inside the bubble unless goroutines block
 	synctest.Test(t, func(t *testing.T) {
 		for _, c := range cases {
-			n := reps
-			if c.Part != "core" {
-				n = repsSlice
+			if timed(c) {
+				continue
 			}
-			for rep := 0; rep < n; rep++ {
+			if c.Dur == "" {
+				c.Dur = "0" // a replayed case recorded before the duration dimension existed
+			}
+			for rep := 0; rep < nOf(c); rep++ {
 				outs, desc := c14Run(r, c)
 				enc.Encode(c14Line{Case: c, O1: outs[0], O2: outs[1], Rep: rep, X: desc})
 			}
 		}
 	})
+	// a verifier that takes time: the virtual clock advances, by up to a thousand hours per presentation, and the fake clock
+	// has room for some 260 years: every representative gets a bubble (and a clock) of its own
+	for _, c := range cases {
+		if !timed(c) {
+			continue
+		}
+		for rep := 0; rep < nOf(c); rep++ {
+			synctest.Test(t, func(t *testing.T) {
+				outs, desc := c14Run(r, c)
+				enc.Encode(c14Line{Case: c, O1: outs[0], O2: outs[1], Rep: rep, X: desc})
+			})
+		}
+	}
 }
